@@ -313,11 +313,13 @@ def load_known():
     return json.load(open(p)).get("findings", [])
 
 
-def match_known(pid, tags, known):
+def match_known(pid, tags, known, msg=""):
+    """a failing case is attributed to a recorded finding when its tags match AND (if the finding names one) its failure
+    message contains the finding's `message_contains` text - a different failure on the same input is still reported"""
     for k in known:
         if k.get("status") != "open" or k["property"] != pid:
             continue
-        if all(tags.get(a) == b for a, b in k["match"].items()):
+        if all(tags.get(a) == b for a, b in k["match"].items()) and k.get("message_contains", "") in (msg or ""):
             return k
     return None
 
